@@ -12,7 +12,7 @@
    (32 on an AVR, 64 on the hosted mock core) and so is the start clock - the theorems hold across the
    roll-over.  Contact bounce is outside the model (the "sampled signal" is what digitalRead returned). *)
 From Coq Require Import ZArith QArith List Bool Arith.
-From RV Require Import Base.Wire Base.NumC Device.DButton Device.DPot Device.DUltra Host.ButtonHist Proofs.InputsP Proofs.ButtonHistP Wire.C15W Proofs.SketchP.
+From RV Require Import Base.Wire Base.NumC Device.DButton Device.DPot Device.DUltra Host.ButtonHist Device.DRebind Proofs.InputsP Proofs.ButtonHistP Wire.C15W Proofs.SketchP Proofs.RebindP.
 Import ListNotations.
 
 (* ---------------------------------------------------------------- Button *)
@@ -293,7 +293,7 @@ Print Assumptions C15_one_sample_per_pass_whole_run.
 Example C15_positions_nonvacuous :
   let pressed := WL [WI 1; WI 0]%Z in
   let sk := {| k_w := 32; k_drifts := []; k_passgaps := [];
-               k_buttons := [{| bd_pin := 7; bd_place := BeforeLoop; bd_h := Some 0%nat; bd_samples := [0; 1; 1; 0]%Z |}];
+               k_buttons := [{| bd_pin := 7; bd_place := BeforeLoop; bd_h := Some 0%nat; bd_samples := [0; 1; 1; 0]%Z; bd_spin := 7; bd_ssamples := [0; 1; 1; 0]%Z |}];
                k_pots := []; k_ultras := []; k_gate := None;
                k_body := [ WL [WI 33; WL [WI 10; pressed]; WI 2; WI 0; WL []];
                            WL [WI 32; WL [WL [WL [WI 11; WL [WI 10; pressed]]; WL [WL [WI 30; WL [WI 0; WI 3]]]]];
@@ -313,7 +313,7 @@ Print Assumptions C15_positions_nonvacuous.
 Example C15_early_pass_end_nonvacuous :
   let pressed := WL [WI 1; WI 0]%Z in
   let sk := {| k_w := 32; k_drifts := []; k_passgaps := [];
-               k_buttons := [{| bd_pin := 7; bd_place := BeforeLoop; bd_h := Some 0%nat; bd_samples := [0; 0; 1; 1]%Z |}];
+               k_buttons := [{| bd_pin := 7; bd_place := BeforeLoop; bd_h := Some 0%nat; bd_samples := [0; 0; 1; 1]%Z; bd_spin := 7; bd_ssamples := [0; 0; 1; 1]%Z |}];
                k_pots := []; k_ultras := []; k_gate := Some {| pd_pin := 19; pd_values := [0; 2; 0]%Z |};
                k_body := [ WL [WI 30; pressed]; WL [WI 38; WI 1]; WL [WI 30; WL [WI 5; WI 0; pressed; WL [WI 0; WI 4]]] ]%Z |} in
   run_sketch sk 3 0 =
@@ -340,6 +340,172 @@ Example C15_pot_nonvacuous :
   ([200; 300; 400]%Z, 5%nat, [PAR 14 200; PAR 14 300; PAR 14 400]).
 Proof. vm_compute. reflexivity. Qed.
 Print Assumptions C15_pot_nonvacuous.
+
+(* ---------------------------------------------------------------- a sensor name bound more than once
+   Device/DRebind.v: the places where one sensor name occurs, in text order - declarations, calls, defs of functions that make
+   the call, calls of those - before the loop and in the loop body.  [run_dyn]: the declaration each executed call uses under
+   Python's name binding (looked up when the call runs); [run_lex]: parser.py's Potentiometer.read() -> analogRead(pin of the
+   declaration written last above the call; a function body keeps the one in force at its def); [run_last]: one object per name
+   built from the last declaration of the whole text (ButtonPoll / __redu_ultrasonic_measure_<name>). *)
+
+(* Python's side: whatever the text, the loop part resolves in pass 1 as in every later pass (so two passes decide) *)
+Theorem C15_binding_two_passes_decide :
+  forall (D : Type) (n : nat) (c : option D) (fs : fenv D) (l : list (item D)),
+  dyn_passes (S n) c fs l = w_out (walk dynM c fs l) :: repeat (w_out (walk dynM (after l c) fs l)) n.
+Proof. exact dyn_passes_S. Qed.
+Print Assumptions C15_binding_two_passes_decide.
+
+(* "a fresh analog read of the DECLARED pin": read() uses, in every pass of every run, the declaration Python's binding gives
+   EXACTLY when the executable guard [lex_ok] holds (part before the loop, pass 0, pass 1 resolve alike) *)
+Theorem C15_pot_read_uses_python_binding_partial :
+  forall (D : Type) (deqb : D -> D -> bool), (forall a b, deqb a b = true <-> a = b) ->
+  forall t : btext D, (forall n, run_lex n t = run_dyn n t) <-> lex_ok deqb t = true.
+Proof. exact lex_exact. Qed.
+Print Assumptions C15_pot_read_uses_python_binding_partial.
+
+(* inside that guard: the name re-declared before the loop, at the top of the loop body, or both, every declaration standing
+   above every call (with helper functions when the loop top does not re-declare, without when it does) - any number of
+   declarations, any pins, any call pattern *)
+Theorem C15_pot_redeclared_above_the_calls :
+  forall (D : Type) (t : btext D),
+  decls_first (t_setup t) -> decls_first (t_loop t) ->
+  (forallb (fun it => negb (is_decl it)) (t_loop t) = true \/ (no_def (t_setup t) = true /\ no_def (t_loop t) = true)) ->
+  forall n, run_lex n t = run_dyn n t.
+Proof. exact lex_decls_first. Qed.
+Print Assumptions C15_pot_redeclared_above_the_calls.
+
+(* REFUTED outside it (finding F-C15-pot-rebound-lexical-pin), two shapes, pins 14 = A0, 15 = A1:
+   (a) p = Potentiometer("A0"); def f(): return p.read(); p = Potentiometer("A1"); while True: f()
+       - Python reads A1 in every pass, the firmware A0 (the body of f was translated while p meant A0);
+   (b) p = Potentiometer("A0"); while True: p.read(); p = Potentiometer("A1"); p.read()
+       - from pass 1 on Python's first read is on A1 (p was re-bound by the previous pass), the firmware's on A0 for ever *)
+Theorem C15_pot_rebound_lexical_refuted :
+  (let t := {| t_setup := [IDecl 14; IDef 0%nat; IDecl 15]; t_loop := [ICall 0%nat] |} in
+   run_dyn 2 t = ([], [[Some 15]; [Some 15]]) /\ run_lex 2 t = ([], [[Some 14]; [Some 14]]) /\ lex_ok Z.eqb t = false)%Z /\
+  (let t := {| t_setup := [IDecl 14]; t_loop := [IUse; IDecl 15; IUse] |} in
+   run_dyn 3 t = ([], [[Some 14; Some 15]; [Some 15; Some 15]; [Some 15; Some 15]]) /\
+   run_lex 3 t = ([], [[Some 14; Some 15]; [Some 14; Some 15]; [Some 14; Some 15]]) /\ lex_ok Z.eqb t = false)%Z.
+Proof. vm_compute. repeat split; reflexivity. Qed.
+Print Assumptions C15_pot_rebound_lexical_refuted.
+
+(* non-vacuity of the guard: re-declared before the loop with a read in between (the shape of a baseline reading), at the loop
+   top, both, with a helper function defined after the last declaration - all inside; lexical = Python's, and the pins differ from
+   what "first declaration" or "last declaration of the text" would give *)
+Example C15_pot_binding_nonvacuous :
+  (let t := {| t_setup := [IDecl 14; IUse; IDecl 15; IUse; IDef 0%nat]; t_loop := [IUse; ICall 0%nat] |} in
+   lex_ok Z.eqb t = true /\ run_lex 2 t = ([Some 14; Some 15], [[Some 15; Some 15]; [Some 15; Some 15]]) /\ last_ok Z.eqb t = false)%Z /\
+  (let t := {| t_setup := [IDecl 14; IUse]; t_loop := [IDecl 15; IUse] |} in
+   lex_ok Z.eqb t = true /\ run_lex 2 t = ([Some 14], [[Some 15]; [Some 15]]) /\ first_decl t = Some 14 /\ last_decl t = Some 15)%Z /\
+  (let t := {| t_setup := [IDecl 14; IDecl 15]; t_loop := [IDecl 16; IDecl 17; IUse; IUse] |} in
+   lex_ok Z.eqb t = true /\ run_dyn 2 t = ([], [[Some 17; Some 17]; [Some 17; Some 17]]))%Z /\
+  decls_first (t_setup {| t_setup := [IDecl 14; IDecl 15; IDef 0%nat; IUse]; t_loop := [ICall 0%nat; IUse] |})%Z.
+Proof.
+  split; [vm_compute; repeat split; reflexivity|]. split; [vm_compute; repeat split; reflexivity|].
+  split; [vm_compute; repeat split; reflexivity|].
+  exists [14; 15]%Z, [IDef 0%nat; IUse]. split; reflexivity.
+Qed.
+Print Assumptions C15_pot_binding_nonvacuous.
+
+(* is_pressed() / measure_distance(): one object per name, built from the LAST declaration of the text.  That is Python's binding
+   for every call of every run exactly when [last_ok] holds; for the calls inside loop() (the statement's subject for a Button)
+   exactly when [last_ok_loop] holds *)
+Theorem C15_last_declaration_is_python_binding_partial :
+  forall (D : Type) (deqb : D -> D -> bool), (forall a b, deqb a b = true <-> a = b) ->
+  forall t : btext D,
+  ((forall n, run_last n t = run_dyn n t) <-> last_ok deqb t = true) /\
+  ((forall n, snd (run_last n t) = snd (run_dyn n t)) <-> last_ok_loop deqb t = true).
+Proof. exact (fun D deqb H t => conj (last_exact D deqb H t) (last_loop_exact D deqb H t)). Qed.
+Print Assumptions C15_last_declaration_is_python_binding_partial.
+
+(* REFUTED outside it (finding F-C15-ultrasonic-rebound-early-measure): u = Ultrasonic(2, 3); u.measure_distance();
+   u = Ultrasonic(4, 5); while True: u.measure_distance()  - keys 23 / 45 - the measurement before the loop is made with the pins
+   of the second declaration (the echo time of another sensor than the one u is bound to); the same inside the loop body:
+   while True: u = Ultrasonic(2, 3); u.measure_distance(); u = Ultrasonic(4, 5); u.measure_distance().
+   Inside: re-declared before the loop / at the loop top with the calls in loop() *)
+Theorem C15_last_declaration_refuted :
+  (let t := {| t_setup := [IDecl 23; IUse; IDecl 45]; t_loop := [IUse] |} in
+   run_dyn 1 t = ([Some 23], [[Some 45]]) /\ run_last 1 t = ([Some 45], [[Some 45]]) /\
+   last_ok Z.eqb t = false /\ last_ok_loop Z.eqb t = true)%Z /\
+  (let t := {| t_setup := []; t_loop := [IDecl 23; IUse; IDecl 45; IUse] |} in
+   run_dyn 1 t = ([], [[Some 23; Some 45]]) /\ run_last 1 t = ([], [[Some 45; Some 45]]) /\ last_ok_loop Z.eqb t = false)%Z /\
+  (let t := {| t_setup := [IDecl 23; IDecl 45; IDef 0%nat]; t_loop := [IDecl 67; IUse; ICall 0%nat] |} in
+   last_ok Z.eqb t = true /\ run_last 2 t = ([], [[Some 67; Some 67]; [Some 67; Some 67]]) /\ lex_ok Z.eqb t = false)%Z.
+Proof. vm_compute. repeat split; reflexivity. Qed.
+Print Assumptions C15_last_declaration_refuted.
+
+(* ---- a Button name with several declarations d0 :: ds (text order; [input pin k] = the k-th digitalRead of that pin).
+   Exactly one sample per pass, taken on the pin of the LAST declaration - the button the name is bound to while loop() runs -
+   and every is_pressed() of the pass returns it *)
+Theorem C15_rebound_button_sampled_on_last_declaration :
+  forall (d0 : bdecl) (ds : list bdecl) (input : Z -> nat -> bool) (calls : list nat),
+  map reads (rb_run d0 ds input calls) = map (fun x => [x]) (rb_signal d0 ds input (length calls)) /\
+  map body_values (rb_run d0 ds input calls) =
+    map (fun k => repeat (input (bl_pin (last ds d0)) (rb_index d0 (last ds d0) k)) (nth k calls O)) (seq 0 (length calls)).
+Proof. exact (fun d0 ds input calls => conj (rb_reads d0 ds input calls) (rb_body_values d0 ds input calls)). Qed.
+Print Assumptions C15_rebound_button_sampled_on_last_declaration.
+
+(* the handler of the last declaration runs at the rising edges of that signal - counted from the level the FIRST declaration's
+   pin had in setup() (the start-up sample is emitted once per name) *)
+Theorem C15_rebound_button_clicks :
+  forall (d0 : bdecl) (ds : list bdecl) (input : Z -> nat -> bool) (calls : list nat) (n : nat),
+  bl_h (last ds d0) = Some n ->
+  map clicks (rb_run d0 ds input calls) =
+  map b2n (edges (input (bl_pin d0) O) (rb_signal d0 ds input (length calls))).
+Proof. exact rb_clicks. Qed.
+Print Assumptions C15_rebound_button_clicks.
+
+(* guard 1: all declarations name one pin (re-declared to attach a handler, or simply repeated): the rising edges of that pin's own
+   sampled signal, start-up sample included - the clause as for a name declared once *)
+Theorem C15_rebound_button_clicks_partial :
+  forall (d0 : bdecl) (ds : list bdecl) (input : Z -> nat -> bool) (calls : list nat) (n : nat),
+  bl_h (last ds d0) = Some n -> bl_pin d0 = bl_pin (last ds d0) ->
+  map clicks (rb_run d0 ds input calls) =
+  map b2n (edges (input (bl_pin d0) O) (map (fun k => input (bl_pin d0) (S k)) (seq 0 (length calls)))).
+Proof. exact rb_clicks_same_pin. Qed.
+Print Assumptions C15_rebound_button_clicks_partial.
+
+(* guard 2: another pin, but the first declaration's pin reads pressed in setup() or the polled pin reads released in pass 0: no
+   click in pass 0, afterwards the rising edges of the polled pin's own signal *)
+Theorem C15_rebound_button_other_pin_partial :
+  forall (d0 : bdecl) (ds : list bdecl) (input : Z -> nat -> bool) (calls : list nat) (n : nat),
+  bl_h (last ds d0) = Some n ->
+  (input (bl_pin d0) O = true \/ hd false (rb_signal d0 ds input (length calls)) = false) ->
+  map clicks (rb_run d0 ds input calls) =
+  match rb_signal d0 ds input (length calls) with
+  | [] => []
+  | x :: r => O :: map b2n (edges x r)
+  end.
+Proof. exact rb_clicks_guarded. Qed.
+Print Assumptions C15_rebound_button_other_pin_partial.
+
+(* REFUTED outside both (finding F-C15-rebound-button-startup-click): b = Button(7, on_click=h); b = Button(8, on_click=h) with
+   pin 7 released and pin 8 pressed from power-up and never released: the handler runs in pass 0 - a click at start-up, no
+   released-to-pressed transition anywhere in the sampled signal; the same with the second declaration at the loop top *)
+Theorem C15_rebound_button_startup_click_refuted :
+  exists (d0 : bdecl) (ds : list bdecl) (input : Z -> nat -> bool) (calls : list nat),
+    bl_pin (last ds d0) <> bl_pin d0 /\
+    forallb (fun x => x) (rb_signal d0 ds input (length calls)) = true /\
+    map clicks (rb_run d0 ds input calls) = [1; 0; 0]%nat /\
+    map clicks (rb_run d0 (map (fun d => {| bl_place := LoopTop; bl_pin := bl_pin d; bl_h := bl_h d |}) ds) input calls) = [1; 0; 0]%nat.
+Proof.
+  exists {| bl_place := BeforeLoop; bl_pin := 7; bl_h := Some 0%nat |},
+         [{| bl_place := BeforeLoop; bl_pin := 8; bl_h := Some 0%nat |}],
+         (fun pin _ => (pin =? 8)%Z), [1; 1; 1]%nat.
+  split; [discriminate|]. vm_compute. repeat split; reflexivity.
+Qed.
+Print Assumptions C15_rebound_button_startup_click_refuted.
+
+(* the sketch interpreter builds its button descriptor from a name's declarations the same way: poll = last, start-up = first *)
+Example C15_rebound_button_resolved :
+  let d1 := {| bw_pin := 7; bw_place := BeforeLoop; bw_h := None; bw_samples := [1; 0]%Z |} in
+  let d2 := {| bw_pin := 8; bw_place := LoopTop; bw_h := Some 1%nat; bw_samples := [0; 1; 1]%Z |} in
+  resolve_button [d1; d2] =
+    Some {| bd_pin := 8; bd_place := BeforeLoop; bd_h := Some 1%nat; bd_samples := [0; 1; 1]%Z; bd_spin := 7; bd_ssamples := [1; 0]%Z |} /\
+  resolve_button [d2] =
+    Some {| bd_pin := 8; bd_place := LoopTop; bd_h := Some 1%nat; bd_samples := [0; 1; 1]%Z; bd_spin := 8; bd_ssamples := [0; 1; 1]%Z |} /\
+  resolve_button [] = None.
+Proof. vm_compute. repeat split; reflexivity. Qed.
+Print Assumptions C15_rebound_button_resolved.
 
 (* ---------------------------------------------------------------- Ultrasonic helper *)
 Open Scope Z_scope.
